@@ -29,6 +29,10 @@ Clause(e) ==
               THEN TrackClause(e.prog.tracks[CHOOSE i \in 1..Len(e.prog.tracks) : TrackClause(e.prog.tracks[i], e.read.tracks[i]) # "ok"],
                                e.read.tracks[CHOOSE i \in 1..Len(e.prog.tracks) : TrackClause(e.prog.tracks[i], e.read.tracks[i]) # "ok"])
          ELSE IF e.read.bpm # e.prog.bpm THEN "tempo" ELSE "ok"
+    [] e.op = "rt_ticks" ->      \* one bar whose values are whole tick counts of any size (value = 288 / k): in.entries and read are sequences of [mt, notes]
+         IF ~e.ok THEN "read-back-raised"
+         ELSE IF Flat([i \in 1..Len(e.read) |-> FlatItem(e.read[i].mt, e.read[i].notes)]) # Flat([i \in 1..Len(e.in.entries) |-> FlatItem(e.in.entries[i].mt, e.in.entries[i].notes)])
+              THEN "same-flattened-music" ELSE "ok"
     [] e.op = "bpm" -> IF e.ok /\ e.out = e.in.bpm THEN "ok" ELSE "tempo"
     [] e.op = "vlq_read" -> IF e.ok /\ e.out.value = e.in.n /\ e.out.consumed = Len(Vlq(e.in.n)) THEN "ok" ELSE "variable-length-reader-inverts-writer"
     [] e.op = "corrupt" -> IF ~e.ok /\ e.err # "hang" THEN "ok" ELSE "not-midi-accepted-as-music"
